@@ -323,6 +323,8 @@ structure Descr where
   template : List Str
   ignore : Bool
   sub : List (List Str × Bool) := []   -- sub command templates with their ignore flag
+  refs : List Str := []                -- referenced prefixes, one per `$REF` of the template
+  subRefs : List (List Str) := []      -- the same for every sub command template
   deriving Repr
 
 structure Cmd where
@@ -570,10 +572,13 @@ def aaaGroup (fixed : Bool) (name : Str) (l : List Cmd) : Res (List Cmd) :=
 
 /-- `setTransRef` for one command whose `parsed` contains `cmdPart`: `names` is what follows
 `cmdPart`.  `strings.Repeat("$REF ", len(nl)-1)` panics for a negative count. -/
-def transRefs (names : Str) : Res (List Str × Str) :=
+def transRefs (fixed : Bool) (orig names : Str) : Res (List Str × Str) :=
   match fields names with
   | [] => .panic (.explicit "strings: negative Repeat count")
-  | n :: ns => .ok (n :: ns, join ((n :: ns).map fun _ => lit "$REF"))
+  | n :: ns =>
+    -- guard added by the fix: only 11 referenced prefixes are registered in `c.typ.ref`
+    if fixed ∧ 11 < (n :: ns).length then .diag (lit "Too many names (max. 11) in: " ++ orig)
+    else .ok (n :: ns, join ((n :: ns).map fun _ => lit "$REF"))
 
 /-- `stripMetric`: `tokens[:5]` is taken only if `len(tokens) == 6`. -/
 def stripMetric (parsed : Str) : Res Str :=
